@@ -13,17 +13,18 @@ def is_node(v):
     return dataclasses.is_dataclass(v) and not isinstance(v, type)
 
 
-def value_problem(v):
-    """None, or the name of the offending type, for one field value (tuples are checked element-wise)"""
+def value_problem(v, path=""):
+    """None, or `<type name>@<where>` of the first offending value of one field value; tuples are checked element-wise at EVERY depth
+    (a list inside a tuple inside a tuple is found), nodes are left to the walk over all nodes"""
     if v is None or isinstance(v, (bool, int, str, enum.Enum)) or is_node(v):
         return None
     if isinstance(v, tuple):
-        for x in v:
-            p = value_problem(x)
+        for i, x in enumerate(v):
+            p = value_problem(x, path + "[%d]" % i)
             if p:
                 return p
         return None
-    return type(v).__name__
+    return type(v).__name__ + ("@" + path if path else "")
 
 
 def variant_of(node):
@@ -124,19 +125,22 @@ def cmd_imm(parts):
         classes.add(type(n).__name__)
         for f in dataclasses.fields(n):
             p = value_problem(getattr(n, f.name))
-            if p and problem is None and not isinstance(getattr(n, f.name), tuple):
+            if p and problem is None:
                 problem = "type:%s.%s:%s" % (type(n).__name__, f.name, p)
-    for i, n in enumerate(nodes):
+    try:
+        for i, n in enumerate(nodes):
+            if problem is None:
+                problem = check_node(n, copies[i] if len(copies) == len(nodes) else None)
         if problem is None:
-            problem = check_node(n, copies[i] if len(copies) == len(nodes) else None)
-    if problem is None:
-        for a, b in zip(stmts, again):
-            if a is b:
-                problem = "copy-same-object"
-        for i in range(len(stmts)):
-            for j in range(i + 1, len(stmts)):
-                if (canon.dump(stmts[i]) == canon.dump(stmts[j])) != (stmts[i] == stmts[j]):
-                    problem = "eq-vs-structure"
+            for a, b in zip(stmts, again):
+                if a is b:
+                    problem = "copy-same-object"
+            for i in range(len(stmts)):
+                for j in range(i + 1, len(stmts)):
+                    if (canon.dump(stmts[i]) == canon.dump(stmts[j])) != (stmts[i] == stmts[j]):
+                        problem = "eq-vs-structure"
+    except Exception as e:              # a check that raises is a failed check, not a harness failure
+        problem = "raised:" + type(e).__name__
     return "OK n=%d imm=%s checks=%s classes=%s" % (len(nodes), "true" if not any(value_problem(getattr(n, f.name)) for n in nodes for f in dataclasses.fields(n)) else "false",
                                                       problem or "ok", ",".join(sorted(classes)))
 
@@ -253,7 +257,11 @@ def leaf_diffs(a, b, out, limit=3):
 def pair_problem(a, da, b, db):
     """structural equality on one pair: == ⇔ same class and same dump; != is its negation; == ⇒ same hash"""
     same = type(a) is type(b) and da == db
-    eq = (a == b)
+    try:
+        eq = (a == b)
+        ha, hb = hash(a), hash(b)
+    except Exception as e:
+        return "hash:%s:%s" % (type(a).__name__, type(e).__name__)
     if eq is not True and eq is not False:
         return "eq-not-bool:%s" % type(a).__name__
     if eq != same:
@@ -262,7 +270,7 @@ def pair_problem(a, da, b, db):
         return "eq-vs-structure:%s:%s:%s" % (type(a).__name__, "equal-but-differ-in" if eq else "differ-but-same-dump", d[0] if d else "-")
     if (a != b) == eq:
         return "ne-vs-eq:%s" % type(a).__name__
-    if eq and hash(a) != hash(b):
+    if eq and ha != hb:
         return "hash-vs-eq:%s" % type(a).__name__
     return None
 
@@ -330,7 +338,11 @@ def cmd_pool(parts):
     status, trees = parse_pool(parts)
     if status is None:
         return "UNMODELLED pool"
-    n, distinct, problem, _ = cross_checks(trees)
+    try:
+        n, distinct, problem, _ = cross_checks(trees)
+    except Exception as e:          # a check that raises is a failed check, not a harness failure
+        nodes = list(canon.walk_nodes(trees))
+        n, distinct, problem = len(nodes), len({canon.dump(x) for x in nodes}), "raised:" + type(e).__name__
     return "OK t=%s n=%d distinct=%d checks=%s" % (",".join(status), n, distinct, problem or "ok")
 
 
@@ -339,7 +351,10 @@ def cmd_pairs(parts):
     status, trees = parse_pool(parts)
     if status is None:
         return "UNMODELLED pool"
-    n, distinct, problem, cov = cross_checks(trees, want_cov=True)
+    try:
+        n, distinct, problem, cov = cross_checks(trees, want_cov=True)
+    except Exception as e:
+        problem, cov = "raised:" + type(e).__name__, set()
     return "OK checks=%s leaves=%s" % (problem or "ok", ",".join(sorted(cov)))
 
 
